@@ -3,6 +3,7 @@ package props
 import (
 	"fmt"
 	"math"
+	"math/rand"
 	"strings"
 	"unicode/utf8"
 
@@ -150,7 +151,8 @@ func expectation(r Req) (int, string) {
 			return expAccept, "text over the 43-character alphabet"
 		}
 		if allIn(s, refC39+"ñòóô") {
-			return expDontCare, ""
+			// ($)(%)(/)(+) are characters of the symbology, exported as FNC1..FNC4
+			return expAccept, "text over the 43 characters and the four special characters FNC1..FNC4"
 		}
 		return expReject, "character outside the alphabet in basic mode"
 	case "code128", "code128nocs":
@@ -277,9 +279,24 @@ func expectation(r Req) (int, string) {
 			}
 			return expDontCare, ""
 		}
+		if 5*len(r.S) > 2*total {
+			// no code is shorter than 2.5 bits per byte (the two-character Punct codes)
+			return expReject, fmt.Sprintf("%d bytes need more than the %d bits of the size", len(r.S), total)
+		}
 		if bits < 0 {
 			if len(r.S) <= 20 && pct <= 50 && l == 0 {
 				return expAccept, "small payload, automatic size"
+			}
+			// general text: one valid encoding (latches, Punct pairs, binary shifts) has sb
+			// bits; the shortest encoding has at most as many.  With room for stuffing, the
+			// requested check words (of at most sb bits), the 11 extra bits this
+			// implementation asks for and two spare words, the content is representable.
+			if pct <= 100 {
+				sb := float64(refdec.AztecSimpleBits(r.S))
+				stuffed := sb*float64(ws)/float64(ws-1) + float64(2*ws)
+				if stuffed+math.Floor(float64(pct)*sb/100)+11+float64(3*ws) <= float64(total) && (!comp || stuffed <= float64(64*ws)) {
+					return expAccept, fmt.Sprintf("a valid encoding of %.0f bits fits the size with margin", sb)
+				}
 			}
 			return expDontCare, ""
 		}
@@ -338,6 +355,20 @@ func (c10) Gen(tier string, seed int64) []fw.Unit {
 		for _, n := range []int{7, 8, 12, 13} {
 			hostile = append(hostile, strings.Repeat(string(l), n), "1234567890123"[:n-1]+string(l), string(l)+"1234567890123"[:n-1], "12"+string(l)+"4567890123"[:n-3]+string(l))
 		}
+	}
+	// valid numbers in their printed or transmitted forms: separators, prefixes, suffixes
+	for _, num := range []string{"9783161484100", "9791234567896", "4006381333931", "0012345678905", "12345670", "96385074", "1234567", "400638133393", "978316148410"} {
+		forms := []string{num + " ", " " + num, num + "\n", "+" + num, "ISBN " + num, "ISBN" + num, "EAN" + num, "(01)0" + num, "]E0" + num, num + "+12", num + " 12345", num + "00", "0" + num}
+		for _, sep := range []string{"-", " ", ".", "\u2010", "\u00a0"} {
+			if len(num) == 13 {
+				forms = append(forms, num[:3]+sep+num[3:4]+sep+num[4:6]+sep+num[6:12]+sep+num[12:], num[:1]+sep+num[1:7]+sep+num[7:], num[:12]+sep+num[12:], num[:3]+sep+num[3:])
+			} else if len(num) >= 8 {
+				forms = append(forms, num[:4]+sep+num[4:], num[:len(num)-1]+sep+num[len(num)-1:])
+			} else {
+				forms = append(forms, num[:3]+sep+num[3:])
+			}
+		}
+		hostile = append(hostile, forms...)
 	}
 	for _, h := range hostile {
 		hb := []byte(h)
@@ -410,6 +441,7 @@ func (c10) Gen(tier string, seed int64) []fw.Unit {
 			add("aztec-int-extremes", Req{Fam: "aztec", S: []byte("AZTEC"), I: []int64{p, l}})
 			add("aztec-int-extremes", Req{Fam: "aztec", S: []byte{0x80, 0x81, 0x82}, I: []int64{p, l}})
 			add("aztec-int-extremes", Req{Fam: "aztec", S: nil, I: []int64{p, l}})
+			add("aztec-int-extremes", Req{Fam: "aztec", S: nil, I: []int64{p, l, 1}})
 		}
 	}
 	// Aztec forced-binary payloads around each size's capacity
@@ -433,6 +465,9 @@ func (c10) Gen(tier string, seed int64) []fw.Unit {
 	}
 	for _, q := range azBoundaryReqs(r, tier == "thorough", false) {
 		add("aztec-capacity-boundary", q)
+	}
+	for _, q := range azTextCapacityReqs(r, tier == "thorough") {
+		add("aztec-text-capacity", q)
 	}
 	add("aztec-over", Req{Fam: "aztec", S: randBytes(r, 3000, highAB), I: []int64{0, 0}})
 	add("aztec-over", Req{Fam: "aztec", S: randBytes(r, 5000, highAB), I: []int64{33, 0}})
@@ -731,4 +766,83 @@ func aztecUpperStuffed(b []byte, ws int) int {
 		words++
 	}
 	return words * ws
+}
+
+// azTextClass returns n bytes of one kind of text (prefix-stable for a given seed).
+func azTextClass(seed int64, class, n int) []byte {
+	r := rand.New(rand.NewSource(seed*31 + int64(class)))
+	var b []byte
+	for len(b) < n+2 {
+		switch class {
+		case 0: // two-character Punct codes only
+			b = append(b, pick(r, azPairs)...)
+		case 1:
+			b = append(b, pick(r, lowerAB))
+		case 2:
+			b = append(b, pick(r, []byte("0123456789,. ")))
+		case 3:
+			b = append(b, pick(r, azPunctChars))
+		case 4:
+			b = append(b, pick(r, azMixedChars))
+		case 5: // prose: capitalised words, commas, full stops, line ends
+			b = append(b, pick(r, upperAB))
+			for k := r.Intn(8); k > 0; k-- {
+				b = append(b, pick(r, lowerAB))
+			}
+			b = append(b, pick(r, []string{" ", ", ", ". ", ": ", "\r\n", " ", " "})...)
+		case 6: // records: digits with separators and pairs
+			for k := 1 + r.Intn(6); k > 0; k-- {
+				b = append(b, pick(r, digitsAB))
+			}
+			b = append(b, pick(r, []string{", ", ". ", ": ", "\r\n", ",", ".", " "})...)
+		default:
+			b = append(b, azWalk(r, 8, 3)...)
+		}
+	}
+	return b[:n]
+}
+
+// azTextCapacityReqs: for each kind of text and a range of (percentage, layers), the
+// longest prefix the acceptance predicate marks as certainly representable, shorter
+// ones, and the shortest certainly not representable.
+func azTextCapacityReqs(r *rand.Rand, dense bool) []Req {
+	var out []Req
+	params := [][2]int64{{0, 0}, {23, 0}, {33, 0}, {10, 32}, {33, -4}, {23, 10}, {5, 22}, {50, 0}, {1, 31}}
+	if !dense {
+		params = params[:5]
+	}
+	seed := r.Int63()
+	for class := 0; class < 8; class++ {
+		for _, pl := range params {
+			verdict := func(n int) int {
+				e, _ := expectation(Req{Fam: "aztec", S: azTextClass(seed, class, n), I: []int64{pl[0], pl[1]}})
+				return e
+			}
+			lo, hi := 0, 9000 // largest n in [0,9000] with expAccept, assuming monotone up to noise
+			for lo < hi {
+				mid := (lo + hi + 1) / 2
+				if verdict(mid) == expAccept {
+					lo = mid
+				} else {
+					hi = mid - 1
+				}
+			}
+			for _, n := range []int{lo, lo - 1, lo - 2, lo - 9, lo * 9 / 10, lo / 2} {
+				if n >= 1 {
+					out = append(out, Req{Fam: "aztec", S: azTextClass(seed, class, n), I: []int64{pl[0], pl[1]}})
+				}
+			}
+			rl, rh := lo, 20000
+			for rl < rh {
+				mid := (rl + rh) / 2
+				if verdict(mid) == expReject {
+					rh = mid
+				} else {
+					rl = mid + 1
+				}
+			}
+			out = append(out, Req{Fam: "aztec", S: azTextClass(seed, class, rl), I: []int64{pl[0], pl[1]}}, Req{Fam: "aztec", S: azTextClass(seed, class, (lo+rl)/2), I: []int64{pl[0], pl[1]}})
+		}
+	}
+	return out
 }
